@@ -115,8 +115,12 @@ func wState(name string, ver int, locked tla.Seq) *channel.State {
 func runWatcherBehaviour(t *testing.T, steps []wStep) (what string, at int, class string) {
 	defer func() {
 		if p := recover(); p != nil && what == "" {
-			what, class = fmt.Sprintf("watcher goroutines remain blocked / panic at the end of the behaviour: %v", p), "leak"
 			at = len(steps) - 1
+			if strings.Contains(fmt.Sprint(p), "blocked goroutines remain") {
+				what, class = fmt.Sprintf("watcher goroutines remain blocked at the end of the behaviour (a leak, not what C05 states): %v", p), "leak"
+			} else {
+				what, class = fmt.Sprintf("a watcher call panicked: %v", p), "panic"
+			}
 		}
 	}()
 	synctest.Test(t, func(t *testing.T) {
@@ -315,7 +319,11 @@ func TestWatcher(t *testing.T) {
 		res.Add("steps", len(steps))
 		what, at, class := runWatcherBehaviour(t, steps)
 		if what != "" {
-			res.Violate("C05", "monitor", class, what, wReplayOf(steps, at))
+			kind := "monitor"
+			if class == "leak" {
+				kind = "conformance"
+			}
+			res.Violate("C05", kind, class, what, wReplayOf(steps, at))
 		}
 	}
 	if dot != "" {
